@@ -22,7 +22,7 @@ CHECKS = {
    text='For every Markov level of every explored ruleset and every position j (all j for small levels, boundaries + sample beyond) q is delivered right after the j-th guess; the resumed run must continue with exactly the owed remainder (sequence equality, no skip/repeat), also when interrupted again inside the remainder, and later cycles must not replay it; whole-history accounting as in C08. The recorded finding F-C15b (final pre-terminal) is reported as KNOWN-FINDING.',
    note='Trusts the session driver; level contents anchored to the brute-force OMEN model; levels of 2-300 strings.'),
  'C12': dict(level='fault_enumeration', ref='3/C12 + 2.4', technique='schedule enumeration with a sys.monitoring LINE-event scheduler over the two real threads (deliver ENTER/h/q/EOF/handler-error at generation-thread yield point p, park the helper after n steps or right after should_exit=True, release at p2) + real CLI subprocesses under 8 stdin conditions; offline stream checker',
-   text='For every explored session the generation thread is stopped at sampled statement boundaries (quick: up to 200 per session, thorough: up to 1500 per session) and the real keypress thread is made to act there; without q the recorded stream must equal the uninterrupted stream exactly, with q it must be a prefix ending at a pre-terminal boundary or between Markov guesses, saved after its last guess, honoured within one further pop, and completed by --load; the same during the replay of a restored OMEN remainder. At the process boundary stdout must be the full stream for pty / open pipe / EOF / newline+EOF / requests / /dev/null / closed stdin. Evidence counts distinct interleavings (hash of the merged thread/function/line trace).',
+   text='For every explored session the generation thread is stopped at sampled statement boundaries (quick: up to 200 per session, thorough: up to 400 per session) and the real keypress thread is made to act there; without q the recorded stream must equal the uninterrupted stream exactly, with q it must be a prefix ending at a pre-terminal boundary or between Markov guesses, saved after its last guess, honoured within one further pop, and completed by --load; the same during the replay of a restored OMEN remainder. At the process boundary stdout must be the full stream for pty / open pipe / EOF / newline+EOF / requests / /dev/null / closed stdin. Evidence counts distinct interleavings (hash of the merged thread/function/line trace).',
    note='Yield points are statement boundaries of the watched functions (no preemption inside a statement); sleep(0.1) in keypress is a no-op; quits landing in the final pre-terminal are C15/F-C15b; CLI exit status ignored.'),
  'C09': dict(level='exploration', ref='3/C09', technique='process-boundary monitor (stdout bytes of the real CLI vs the in-process recorded guess stream) + real main() with -n N for every N of small rulesets / boundary-targeted N, error-path runs',
    text='Held on everything explored: for every N (all N in 1..total+2 for streams <= 300 guesses, boundary-targeted N beyond) the real main() emits exactly the first min(N,total) guesses of the unlimited run, also inside pre-terminals and Markov levels and in random_walk mode; stdout of the real CLI is byte-for-byte the stream joined by newlines under all flag sets; error paths (unwritable save file, bad --limit, unknown ruleset) leave stdout free of diagnostics.',
